@@ -179,8 +179,8 @@ fn check_day(ctx: &Ctx, civ: &Civil, tm: &Terms, ord: usize, prev_mansion: &mut 
         }
       }
       *prev_mansion = Some((ord, m1));
-      if d.0 >= 2 && (!stars.contains(&ns1) || !stars.contains(&ns2)) {
-        ctx.violation("day_nine_star", fmt_ymd(d), format!("day nine star index {} / {}, model accepts {:?} (ascending from 一白 on the Jiazi day nearest the winter solstice, descending from 九紫 on the one nearest the summer solstice)", ns1, ns2, stars), rp.clone());
+      if d.0 >= 2 && (!stars.contains(&ns1) || !stars.contains(&ns2) || ns1 != ns2) {
+        ctx.violation("day_nine_star", fmt_ymd(d), format!("day nine star index {} (sexagenary-day route) / {} (lunar-day route; the two routes must agree), model accepts {:?} (ascending from 一白 on the Jiazi day nearest the winter solstice, descending from 九紫 on the one nearest the summer solstice)", ns1, ns2, stars), rp.clone());
       }
       if stars.len() > 1 {
         loc.oc("day nine star: both alignments accepted");
